@@ -1,5 +1,6 @@
 (* C17 — Avro: decode inverts encode, by induction over schemas, for every block splitting of arrays / maps
-   in the positive-count form (what arrow-avro writes is bk = 0). *)
+   (what arrow-avro writes is bk = 0, sized = false), in the positive-count form and in the
+   negative-count + byte-size form. *)
 From Coq Require Import List NArith ZArith Lia Bool Arith ZifyN ZifyNat ZifyBool.
 From AV Require Import Base.Utf8 Model.C17_Avro Proofs.C17_Varint Proofs.C17_AvroLemmas.
 Import ListNotations.
@@ -28,10 +29,16 @@ Definition schema_ind2 (P : schema -> Prop) (H : forall s, sub_hyp P s -> P s) :
 
 Section Main.
 Variable bk : nat.
+Variable sized : bool.
 
-Notation enc := (encode bk false).
+Notation enc := (encode bk sized).
+(* the byte sizes written in the sized form must not wrap an i64 *)
+Definition fits (l : list N) : Prop := sized = true -> (Z.of_nat (length l) < 2^63)%Z.
 Definition ok (s : schema) : Prop :=
-  forall d rest, wf s d -> decode s (enc s d ++ rest) = Some (d, rest).
+  forall d rest, wf s d -> fits (enc s d) -> decode s (enc s d ++ rest) = Some (d, rest).
+
+Lemma fits_le (a b : list N) : (length a <= length b)%nat -> fits b -> fits a.
+Proof. unfold fits. intros H Hb Hs. specialize (Hb Hs). lia. Qed.
 
 (* unfolding equations for the nested fixpoints *)
 Definition enc_pick (x : datum) :=
@@ -76,38 +83,39 @@ Proof. reflexivity. Qed.
 Lemma wf_record fs ds : wf (SRecord fs) (DRecord ds) = wf_fields fs ds.
 Proof. reflexivity. Qed.
 
-Lemma pick_ok x rest : forall brs k k0, Forall ok brs -> wf_pick x brs k ->
+Lemma pick_ok x rest : forall brs k k0, Forall ok brs -> wf_pick x brs k -> fits (enc_pick x brs k) ->
   dec_pick (enc_pick x brs k ++ rest) brs k0 (Z.of_nat k) = Some (DUnion (k0 + k) x, rest).
 Proof.
-  induction brs as [|t brs IH]; intros k k0 Hall Hwf; [contradiction|].
+  induction brs as [|t brs IH]; intros k k0 Hall Hwf Hfit; [contradiction|].
   inversion Hall as [|? ? Ht Hrest]; subst.
   destruct k as [|k].
   - cbn [enc_pick dec_pick wf_pick] in *. change (Z.of_nat 0 =? 0)%Z with true. cbv iota.
-    rewrite (Ht x rest Hwf). cbn [map_res]. now rewrite Nat.add_0_r.
+    rewrite (Ht x rest Hwf Hfit). cbn [map_res]. now rewrite Nat.add_0_r.
   - cbn [enc_pick dec_pick wf_pick] in *.
     destruct (Z.eqb_spec (Z.of_nat (S k)) 0) as [?|_]; [lia|].
     replace (Z.of_nat (S k) - 1)%Z with (Z.of_nat k) by lia.
-    fold (enc_pick x). fold (dec_pick (enc_pick x brs k ++ rest)).
-    rewrite (IH k (S k0) Hrest Hwf). f_equal. f_equal. f_equal. lia.
+    fold (enc_pick x) in *. fold (dec_pick (enc_pick x brs k ++ rest)).
+    rewrite (IH k (S k0) Hrest Hwf Hfit). f_equal. f_equal. f_equal. lia.
 Qed.
 
-Lemma fields_ok : forall fs ds rest, Forall ok fs -> wf_fields fs ds ->
+Lemma fields_ok : forall fs ds rest, Forall ok fs -> wf_fields fs ds -> fits (enc_fields fs ds) ->
   dec_fields fs (enc_fields fs ds ++ rest) = Some (ds, rest).
 Proof.
-  induction fs as [|t fs IH]; intros ds rest Hall Hwf.
+  induction fs as [|t fs IH]; intros ds rest Hall Hwf Hfit.
   - destruct ds; [reflexivity|contradiction].
   - destruct ds as [|v ds]; [contradiction|]. inversion Hall as [|? ? Ht Hrest]; subst.
     cbn [wf_fields] in Hwf. destruct Hwf as [Hv Hds].
-    cbn [enc_fields dec_fields]. rewrite <- app_assoc. rewrite (Ht v _ Hv).
-    fold enc_fields. fold dec_fields. now rewrite (IH ds rest Hrest Hds).
+    cbn [enc_fields dec_fields] in *. fold enc_fields in *. fold dec_fields.
+    rewrite <- app_assoc. rewrite (Ht v _ Hv) by (eapply fits_le; [|exact Hfit]; rewrite app_length; lia).
+    rewrite (IH ds rest Hrest Hds) by (eapply fits_le; [|exact Hfit]; rewrite app_length; lia). reflexivity.
 Qed.
 
-Lemma blocks_len (items : list (list N)) : blocks bk false items = enc_blocks (length items) bk false items.
+Lemma blocks_len (items : list (list N)) : blocks bk sized items = enc_blocks (length items) bk sized items.
 Proof. reflexivity. Qed.
 
 Theorem decode_encode_all : forall s, ok s.
 Proof.
-  apply schema_ind2. intros s IH. unfold ok. intros d rest Hwf.
+  apply schema_ind2. intros s IH. unfold ok. intros d rest Hwf Hfit.
   destruct s; cbn [sub_hyp] in IH.
   - (* null *) destruct d; cbn [wf] in Hwf; try contradiction. reflexivity.
   - (* boolean *) destruct d; cbn [wf] in Hwf; try contradiction. destruct b; reflexivity.
@@ -148,22 +156,32 @@ Proof.
     rewrite <- HL at 1. rewrite (sign_fit_back _ n R HB ltac:(lia) Hn HR).
     now rewrite from_be_be_bytes by (try exact Hv; lia).
   - (* array *) destruct d; cbn [wf] in Hwf; try contradiction. destruct Hwf as [Hlen Hall].
-    cbn [encode decode]. rewrite blocks_len, map_length.
-    rewrite (read_blocks_enc (decode s) (enc s) bk false (length l) l rest 0 [] _).
+    cbn [encode decode] in *. rewrite blocks_len, map_length in *.
+    assert (Hcat : fits (concat (map (enc s) l))).
+    { eapply fits_le; [|exact Hfit]. apply enc_blocks_concat_le. now rewrite map_length. }
+    rewrite (read_blocks_enc (decode s) (enc s) bk sized (length l) l rest 0 [] _).
     + reflexivity.
-    + intros a r Hin. apply IH. rewrite Forall_forall in Hall. now apply Hall.
-    + discriminate.
+    + intros a r Hin. apply IH; [rewrite Forall_forall in Hall; now apply Hall|].
+      eapply fits_le; [|exact Hcat]. apply in_concat_le. now apply in_map.
+    + exact Hcat.
     + lia.
     + unfold max_items in Hlen. lia.
     + lia.
     + rewrite app_length. lia.
   - (* map *) destruct d; cbn [wf] in Hwf; try contradiction. destruct Hwf as [Hlen Hall].
-    cbn [encode decode]. rewrite blocks_len, map_length.
-    rewrite (read_blocks_enc _ (fun kv : list N * datum => write_len_prefixed (fst kv) ++ enc s (snd kv)) bk false (length l) l rest 0 [] _).
+    cbn [encode decode] in *. rewrite blocks_len, map_length in *.
+    set (encA := fun kv : list N * datum => write_len_prefixed (fst kv) ++ enc s (snd kv)) in *.
+    assert (Hcat : fits (concat (map encA l))).
+    { eapply fits_le; [|exact Hfit]. apply enc_blocks_concat_le. now rewrite map_length. }
+    rewrite (read_blocks_enc _ encA bk sized (length l) l rest 0 [] _).
     + reflexivity.
     + intros [k x] r Hin. rewrite Forall_forall in Hall. destruct (Hall _ Hin) as [_ [Hk [Hu Hx]]]. cbn [fst snd] in *.
-      rewrite <- app_assoc. rewrite get_bytes_write by exact Hk. rewrite Hu. now rewrite (IH x r Hx).
-    + discriminate.
+      unfold encA. cbn [fst snd]. rewrite <- app_assoc. rewrite get_bytes_write by exact Hk. rewrite Hu.
+      rewrite (IH x r Hx); [reflexivity|].
+      eapply fits_le; [|exact Hcat].
+      transitivity (length (encA (k, x))); [unfold encA; cbn [fst snd]; rewrite app_length; lia|].
+      apply in_concat_le. now apply (in_map encA).
+    + exact Hcat.
     + lia.
     + unfold max_items in Hlen. lia.
     + lia.
@@ -172,21 +190,27 @@ Proof.
     destruct o as [x|]; destruct null_second; cbn [encode decode app read_varint];
       try (change (0 <? 128) with true); try (change (2 <? 128) with true); cbv iota;
       try (change (0 =? 0) with true); try (change (2 =? 0) with false); cbn [negb]; cbv iota;
-      try (now rewrite (IH x rest Hwf)); reflexivity.
+      try (rewrite (IH x rest Hwf) by (eapply fits_le; [|exact Hfit]; cbn [encode length]; lia)); reflexivity.
   - (* union *) destruct d; try (cbn [wf] in Hwf; contradiction).
     rewrite wf_union in Hwf. destruct Hwf as [Hk Hp].
-    rewrite enc_union, dec_union, <- app_assoc. rewrite get_long_write by lia.
+    rewrite enc_union in Hfit. rewrite enc_union, dec_union, <- app_assoc. rewrite get_long_write by lia.
     destruct (Z.ltb_spec (Z.of_nat k) 0) as [?|_]; [lia|].
-    now rewrite (pick_ok d rest branches k O IH Hp).
+    rewrite (pick_ok d rest branches k O IH Hp); [reflexivity|].
+    eapply fits_le; [|exact Hfit]. rewrite app_length. lia.
   - (* record *) destruct d; try (cbn [wf] in Hwf; contradiction).
-    rewrite wf_record in Hwf. rewrite enc_record, dec_record.
-    now rewrite (fields_ok fields l rest IH Hwf).
+    rewrite wf_record in Hwf. rewrite enc_record in Hfit. rewrite enc_record, dec_record.
+    now rewrite (fields_ok fields l rest IH Hwf Hfit).
 Qed.
 End Main.
 
 (* ------------------------------------------------------------------ corollaries *)
 Theorem decode_encode bk s d rest : wf s d -> decode s (encode bk false s d ++ rest) = Some (d, rest).
-Proof. intros H. exact (decode_encode_all bk s d rest H). Qed.
+Proof. intros H. apply (decode_encode_all bk false s d rest H). discriminate. Qed.
+
+(* the negative-count + byte-size block form: the sizes written must fit an i64 *)
+Theorem decode_encode_sized bk s d rest : wf s d -> (Z.of_nat (length (encode bk true s d)) < 2^63)%Z ->
+  decode s (encode bk true s d ++ rest) = Some (d, rest).
+Proof. intros H Hl. apply (decode_encode_all bk true s d rest H). intros _. exact Hl. Qed.
 
 Corollary decode_encode_writer s d : wf s d -> decode s (encode_w s d) = Some (d, []).
 Proof. intros H. rewrite <- (app_nil_r (encode_w s d)). now apply decode_encode. Qed.
@@ -228,5 +252,6 @@ Proof.
   repeat split; try lia; try reflexivity; try discriminate;
     repeat (constructor; cbn [fst snd wf length]; unfold i32, byte_list, len_ok; repeat split; try lia; try reflexivity).
 Qed.
-Example ex_roundtrip : decode ex_schema (encode 2 false ex_schema ex_datum) = Some (ex_datum, []).
-Proof. vm_compute. reflexivity. Qed.
+Example ex_roundtrip : decode ex_schema (encode 2 false ex_schema ex_datum) = Some (ex_datum, [])
+  /\ decode ex_schema (encode 1 true ex_schema ex_datum) = Some (ex_datum, []).
+Proof. split; vm_compute; reflexivity. Qed.
